@@ -791,14 +791,31 @@ func spendTaproot(r *vlib.Rand, res *result, forceNoDigest bool) {
 		}
 		internal := randKey(r)
 		leaf := refsighash.TapLeafHash(0xc0, tapscript)
-		tw := refec.TapTweakHash(internal.xpub, leaf[:])
+		// the leaf sits 0..3 levels deep in a tree: the digest commits to the leaf hash, not to the root the
+		// commitment check arrives at
+		root := append([]byte{}, leaf[:]...)
+		var siblings []byte
+		depth := r.Intn(4)
+		for d := 0; d < depth; d++ {
+			sib := r.Bytes(32)
+			siblings = append(siblings, sib...)
+			if bytes.Compare(root, sib) < 0 {
+				root = refec.TaggedHash("TapBranch", root, sib)
+			} else {
+				root = refec.TaggedHash("TapBranch", sib, root)
+			}
+		}
+		if depth > 0 {
+			name += fmt.Sprintf("/depth%d", depth)
+		}
+		tw := refec.TapTweakHash(internal.xpub, root)
 		q, why := refec.TaprootOutputKey(internal.xpub, tw)
 		if why != "" {
 			res.count("harness_tweak_failed")
 			return
 		}
 		parity := byte(q.Y.Bit(0))
-		control = cat([]byte{0xc0 | parity}, internal.xpub)
+		control = cat([]byte{0xc0 | parity}, internal.xpub, siblings)
 		spent[idx].PkScript = cat([]byte{0x51, 0x20}, q.XOnly())
 		sp = &refsighash.ScriptPath{LeafHash: leaf, CodeSepPos: pos}
 	}
